@@ -27,6 +27,7 @@ META = {
 META["explanation"] += ' R11.4 also requires the tag shift to accompany every structural change of the sorted buffer on every path of the arm (no fast path that inserts and returns before the shift).'
 META["explanation"] += ' R11.8 inside a loop that inserts into the sorted buffer, a searched position is not compared with a length of the buffer read before the loop.'
 META["explanation"] += " R11.9 every positional access to the sorted buffer (get / remove / set / insert / ..) takes a position that is not a diff's own index payload (a source-order index) unless it went through a search."
+META["explanation"] += ' R11.10 a searched position that is then advanced over a run of items (take_while(pred).count()) walks only over items not greater than the new value (polarity of Ordering::is_* against the argument order of the comparison). Shared: R10.12.'
 
 STRUCT = {"append", "clear", "push_front", "push_back", "pop_front", "pop_back", "insert", "set", "remove", "truncate", "retain", "split_off", "slice", "extend"}
 TRANSLATOR = "vector::sort::handle_diff_and_update_buffered_vector"
@@ -71,6 +72,9 @@ def run(ctx):
     r11_3(ctx, f, b, buf)
     r11_8(ctx, f, b, buf)
     r11_9(ctx, f, b, buf)
+    r11_10(ctx, f)
+    from . import c10
+    c10.r10_12(ctx)
     bulk_tags(ctx, f, sw, arms, buf)
     # poll function: end-of-stream and typestate
     for pf, sites in wakers.poll_fns(F, (UT,)):
@@ -632,3 +636,56 @@ def r11_9(ctx, f, b, buf):
         else:
             ctx.holds("R11.9", f, "position-is-sorted-position:%s" % m, where, "position = %s" % fmt(e, 3))
     ctx.floor("R11.9", n, 8)
+
+
+
+def r11_10(ctx, f):
+    """a searched position that is then advanced over a run of items (`.skip(i).take_while(pred).count()`, a while loop over the
+    buffer) may only walk over items that are NOT greater than the new value: walking while `compare(item, new).is_ge()` passes
+    every greater item and puts the new value at the end of the buffer. The predicate's polarity is read off the closure:
+    Ordering::is_{eq,le,lt} for compare(item, new), is_{eq,ge,gt} for compare(new, item)."""
+    F = ctx.facts
+    n = 0
+    work = [f]
+    seen = set()
+    while work:
+        g = work.pop()
+        if g.key in seen or not g.built:
+            continue
+        seen.add(g.key)
+        work.extend(F.children.get(g.key, []))
+        b = g.built
+        for blk, t in b.calls(r"Iterator>?::(take_while|skip_while)$"):
+            recv = b.expr_of_op(t["args"][0])
+            if not contains(recv, lambda y: y[0] == "call" and ecall_matches(y, r"GenericVector::<.*>::(iter|iter_mut)$|Iterator>?::skip$")):
+                continue
+            cl = [F.fns.get(g.crate + "::" + d_) for d_ in (t.get("garg_defs") or []) if d_]
+            cl = [c for c in cl if c is not None and c.built]
+            if not cl:
+                continue
+            cb = cl[0].built
+            tests = cb.calls(r"^std::cmp::Ordering::is_(eq|ne|lt|le|gt|ge)$")
+            if len(tests) != 1:
+                continue
+            tb, tt = tests[0]
+            pol = (tt.get("callee") or "").split("::is_")[-1]
+            e = cb.expr_of_op(tt["args"][0])
+            calls = find_all(e, lambda y: y[0] == "call" and ecall_matches(y, r"ops::Fn(Mut|Once)?(<.*>>?)?::call(_mut|_once)?$"))
+            if not calls or len(calls[0][3]) < 2:
+                continue
+            tup = strip(calls[0][3][1], through_calls=False)
+            if tup[0] != "agg" or len(tup[5]) != 2:
+                continue
+            first_is_item = contains(tup[5][0], lambda y: y[0] == "param" and y[1] == 2)
+            second_is_item = contains(tup[5][1], lambda y: y[0] == "param" and y[1] == 2)
+            if first_is_item == second_is_item:
+                continue
+            n += 1
+            ok_set = ("eq", "le", "lt") if first_is_item else ("eq", "ge", "gt")
+            which = (t.get("callee") or "").split("::")[-1]
+            ok = pol in ok_set if which == "take_while" else True
+            ctx.verdict(ok, "R11.10", root_fn(F, g), "run-walk-polarity", b.line_at((blk, 10 ** 6)), "the run walked after the search consists of items not greater than the new value (is_%s)" % pol,
+                        "after the binary search the position is advanced while `compare(%s).is_%s()`: that predicate holds for every item greater than the new value, so the value is placed behind all of them - the sorted buffer (and the view) is no longer ordered when a tie is hit" % (
+                            "item, new" if first_is_item else "new, item", pol))
+    if not n:
+        ctx.holds("R11.10", f, "run-walk-polarity", f.loc(), "no searched position is advanced over a run of items")
